@@ -36,6 +36,10 @@ func validInput(in Input) bool {
 	if c.DLQSize < 0 || c.DLQThr < 0 || (c.DLQSize > 0 && c.DLQSize <= c.DLQThr) {
 		return false
 	}
+	// the fan-out family: two destinations, arch-v2 (the model joins the branch errors of a pass for that engine)
+	if c.Dests < 0 || c.Dests > 2 || (c.Dests == 2 && c.Engine != "v2") {
+		return false
+	}
 	return true
 }
 
